@@ -18,9 +18,9 @@ RULE_TEXT = ("every serde attribute of every type in the Model closure is an ins
 EXPLANATION = ("D1 skip_serializing_if predicates pair with the deserialisation default (helper bodies read from MIR; custom is_empty covers all fields); "
                "D2 no lossy/asymmetric attribute, both traits derived; D3 untagged/flatten key sets unambiguous; D4 string-like map keys, no hash containers; "
                "D5 each shipped file contains only known keys, no key holding its skip-default, all required keys, numbers that survive f32 round-trip")
-DECIDED = ["D1 skip <=> default pairs", "D2 no skip/rename/with asymmetry; Serialize and Deserialize both derived", "D3 untagged/flatten soundness",
+DECIDED = ["D6 every float division between the project text and the converted model has a non-zero divisor (no inf/NaN -> null in converted models)", "D1 skip <=> default pairs", "D2 no skip/rename/with asymmetry; Serialize and Deserialize both derived", "D3 untagged/flatten soundness",
            "D4 map keys string-like; no HashMap/HashSet", "D5 shipped files are fixpoints of the derived schema"]
-UNDECIDED = ["non-finite floats (serialised as null, not reloadable): a value property", "byte-identical second serialisation beyond what D1-D4 imply"]
+UNDECIDED = ["non-finite floats from sources other than a division on the conversion path (serialised as null, not reloadable): a value property", "byte-identical second serialisation beyond what D1-D4 imply"]
 ASSUMPTIONS = ["serde_derive/serde_json implement the documented attribute semantics", "f32 values are printed with the shortest round-trip decimal (ryu)"]
 LEVEL_TEXT = ("Schema audit from the compiler's own facts (expanded-AST serde attributes, field types, derived impls, MIR of the helper functions): every "
               "omitted-when-default field reloads as that default, no attribute drops/renames/re-types a field asymmetrically, the untagged+flattened material "
@@ -222,16 +222,30 @@ class Audit:
         probs = []
         if covered != allf:
             probs.append("fields not tested: %s" % sorted(allf - covered))
-        # shape: every is_empty result feeds a switch whose false edge leads to `_0 = false`
-        for b in range(fn.body.n):
-            for s in fn.body.blocks[b]["st"]:
-                if s["s"] == "assign" and s["p"] == 0 and s["rv"]["r"] == "use" and "k" in s["rv"]["a"]:
-                    v = s["rv"]["a"]["k"].get("v")
-                    if v == "true":
-                        from ..cfgq import dominating_conditions
-                        conds = dominating_conditions(fn.body, b)
-                        if len(conds) < len(covered) - 1:
-                            probs.append("`true` is returned without all emptiness tests holding (not a conjunction)")
+        # truth table: the function is true exactly when every field is empty
+        import itertools
+        from ..tables import Atoms, eval_predicate
+        from ..cfgq import Scope
+
+        class EmptyAtoms(Atoms):
+            def value(self, n):
+                n_ = strip(n)
+                if n_[0] == "call" and short_callee(n_[1]) == "is_empty" and n_[2]:
+                    f_ = self.field_of(n_[2][0])
+                    if f_ is not None:
+                        return "1" if self.values[f_] else "0"
+                return Atoms.value(self, n)
+        names = sorted(covered)
+        if names and len(names) <= 8:
+            for combo in itertools.product([True, False], repeat=len(names)):
+                r = eval_predicate(Scope(self.prog, fn), EmptyAtoms(dict(zip(names, combo)), {}))
+                if isinstance(r, tuple):
+                    raise AnalysisError("cannot evaluate %s: %s" % (fn.path, r[1]))
+                if r != all(combo):
+                    nonempty = [n_ for n_, v_ in zip(names, combo) if not v_]
+                    probs.append("it is %s when %s" % ("true" if r else "false", ("only %s %s data" % (", ".join(nonempty), "holds" if len(nonempty) == 1 else "hold")) if nonempty
+                                                       else "every field is empty"))
+                    break
         return covered, probs
 
 
@@ -334,6 +348,9 @@ def run_audit(ctx, au, rule="c04"):
                         ctx.ok(rule + ".pair", pkey, "%s <-> Default (empty/None)" % skip, loc)
                     continue
                 pfn = au.fn_named(skip, adt)
+                if pfn is None and skip.split("::")[0] in ("Option", "Vec", "String", "BTreeMap", "HashMap", "str") and skip.split("::")[-1] in ("is_some", "is_some_and", "is_none_or"):
+                    ctx.violation(rule + ".pair", pkey, "skip_serializing_if = \"%s\" leaves out every value that is present: it is written as nothing and loads back as the default" % skip, loc)
+                    continue
                 if pfn is None:
                     raise AnalysisError("cannot resolve skip predicate %r of %s" % (skip, fkey))
                 if pfn.id.endswith("::is_default"):
@@ -748,6 +765,29 @@ def run(ctx):
     au2 = Audit(ctx, ei)
     au2.seen = au2.seen - au.seen
     run_audit(ctx, au2, rule="c04ei")
+    check_converted_finite(ctx)
+
+
+def check_converted_finite(ctx):
+    """a converted model must load back: JSON has no inf/NaN (serde_json writes null, which does not load as f32), so every float division on the
+    way from the project text to the model (converter, parsers and their helpers) needs a divisor that cannot be zero"""
+    from ..floatdiv import float_divisions, assign_div_keys
+    from ..panics import Inventory
+    prog = ctx.prog
+    roots = [f.id for f in prog.fns.values() if f.path.startswith(("bemodel::convert::from_ctehexml", "hulc::ctehexml::parse", "hulc::bdl::Data::new"))]
+    ctx.require(len(roots) >= 10, "converter / parser entry points not found")
+    inv = Inventory(prog, ctx.cg)
+    divs = []
+    for i in sorted(ctx.cg.reachable(roots)):
+        divs += float_divisions(inv, prog.fns[i])
+    assign_div_keys(prog, divs, "c04.finite")
+    ctx.floor("c04.finite", "float divisions on the conversion path", len(divs), 14)
+    for d in divs:
+        if d["guard"]:
+            ctx.ok("c04.finite", d["key"], d["guard"], d["fn"].loc(d["line"]))
+        else:
+            ctx.violation("c04.finite", d["key"], "division by `%s` without a guard on the conversion path: a zero there puts inf/NaN into the converted model, which is written as "
+                          "null and does not load back" % d["desc"], d["fn"].loc(d["line"]))
 
 
 def run_fixture(ctx):
